@@ -25,6 +25,11 @@ CHECKS["C12"] = dict(cat=MC, engine="E1 xsched, environment-only form (segmentat
    text="69 valid messages of every stream codec (HTTP request/response heads, SOCKS4/4a/5 negotiation+request, replies, 1-3 RPFM frames) with 0/1/5 bytes of trailing payload are decoded by the real decoders under every enumerated segmentation; parsed message and unread remainder must equal the single-segment run; EOF after every proper prefix must not yield a message.",
    note="Trusts: the in-memory stream (one segment per poll_read). Not covered: all subsets of cuts for messages longer than 14 (thorough 18) bytes.",
    ref="DESIGN.md §3 C12")
+CHECKS["C05"] = dict(cat=MC, engine="E2 xseq (bounded-exhaustive input enumeration on the real decoders under catch_unwind)",
+   technique="bounded-exhaustive enumeration of byte strings, header grids, datagram sequences and upstream replies on the real decoders; oracle: returns within a poll budget, never panics",
+   text="Every (id,total,seq) fragment header, all 2-(thorough 3-)datagram sequences over a 98-header alphabet, a structured RPFM header/attribute grid through the stream reader / from_buffer / fragment layer with every truncation, the SOCKS-UDP header grid, all byte strings up to length 5 (thorough 6) over 12-symbol alphabets for the HTTP and SOCKS decoders, every single-byte substitution/deletion of every valid message, 25 request heads through the real h11c_handshake and 22 upstream replies x feature x channel through the real h11c_connect.",
+   note="A caught panic stands for a process abort (panic='abort'). Trusts the harness profile (overflow checks on). Not covered here: process-level liveness (accept loop after EMFILE, stalls), TPROXY, memory exhaustion.",
+   ref="DESIGN.md §3 C05")
 NOT_YET = "check not built yet in this revision (see DESIGN.md §3 for the planned model-checking design)"
 def main():
     checks = []
